@@ -38,16 +38,21 @@
     remainder = whole units.  `C11_unsolicited_units_whole`: whenever the unsolicited machine is not
     inside a unit its accepted output is exactly a concatenation of whole units (each: line break,
     text without NUL, line break — the two line breaks of one unit may differ).
-  Together with `C11_flush_exclusive` / `C11_writer` (only the machine in FLUSH_IO_WRITE writes, never
-  both) this is the property for both producers; what is not stated as one theorem is the merged
-  byte stream (that a unit of one machine is contiguous in it follows from the exclusion, since a
-  machine stays in FLUSH_IO_WRITE from its unit's first byte to its last: `C11_unit_step`).
+  * `C11_merged_units` (`Proofs/UnitsM.lean`): **the merged byte stream** — everything `io->write`
+    has accepted from either machine, in the order of the calls, over any history — is a
+    concatenation of whole units followed by the part already sent of the one unit in progress:
+    `MInv`: if the command machine is sending, merged ++ its remainder = whole units; if the
+    unsolicited machine is sending, the same with its remainder (two cases as above); if neither is
+    sending, merged = whole units exactly (`C11_merged_units_whole`).  A unit waiting for the output
+    in FLUSH_IO_WRITE_WAIT is not counted until it starts.  Units of the two machines never
+    interleave: no byte of one machine lies between two bytes of a unit of the other.
 -/
 import CatVerif.Proofs.Inv
 import CatVerif.Proofs.Log
 import CatVerif.Proofs.Units
 import CatVerif.Proofs.UnitsHist
 import CatVerif.Proofs.UnitsU
+import CatVerif.Proofs.UnitsM
 namespace Cat
 open St
 
@@ -220,6 +225,47 @@ theorem C11_unsolicited_units_whole (D : Desc) (buf ubuf : List Byte) (mem : Lis
     simp [remU, hq]
   rw [e] at h2
   simpa using h2
+
+/-- **The merged output of both machines is a sequence of whole units**, over any history: `MInv`
+with everything accepted so far from either machine, in order. -/
+theorem C11_merged_units (D : Desc) (buf ubuf : List Byte) (mem : List (List Byte)) (ops : List Op)
+    (hok : ∀ op ∈ ops, OpOk op) (hn : 0 < D.commandsNum) (hc : 0 < D.cap) (hd : DescOk D) (hb : D.cmdCap ≤ buf.length)
+    (hm : ∀ id, ∀ v ∈ (D.cmdD id).vars.getD [], v.dataSize ≤ (mem.getD v.slot []).length)
+    (hbu : if D.unsBuf.isSome then D.unsCap ≤ ubuf.length else D.unsBase + D.unsCap ≤ buf.length) :
+    MInv (runOps ⟨D, init D buf ubuf mem⟩ ops).1.D (outAllM (runOps ⟨D, init D buf ubuf mem⟩ ops).2)
+      (runOps ⟨D, init D buf ubuf mem⟩ ops).1.s := by
+  have g := C11_init_good D buf ubuf mem hn hc hd hb hm
+  have gu : GoodUU ⟨D, init D buf ubuf mem⟩ :=
+    ⟨g.good, by simpa [BufOkU, init] using hbu, fun h => by simp [init] at h⟩
+  have t0 : TraceU D [] (init D buf ubuf mem) :=
+    ⟨fun o => by simp [OpenU, init] at o, fun _ => ⟨[], by simp, by simp [remU, init]⟩⟩
+  have gm : GoodM ⟨D, init D buf ubuf mem⟩ := ⟨g, gu, ⟨[], t0⟩, by simp [FlushExcl, init]⟩
+  have m0 : MInv D [] (init D buf ubuf mem) :=
+    ⟨fun h => by simp [init] at h, fun h => by simp [init] at h, fun _ _ => ⟨[], by simp, rfl⟩,
+     fun h => by simp [init] at h, fun h => by simp [init] at h⟩
+  simpa using runOps_merged ops ⟨D, init D buf ubuf mem⟩ [] hok gm m0
+
+/-- whenever neither machine is sending, everything emitted so far — by both machines together, in
+order — is exactly a concatenation of whole units -/
+theorem C11_merged_units_whole (D : Desc) (buf ubuf : List Byte) (mem : List (List Byte)) (ops : List Op)
+    (hok : ∀ op ∈ ops, OpOk op) (hn : 0 < D.commandsNum) (hc : 0 < D.cap) (hd : DescOk D) (hb : D.cmdCap ≤ buf.length)
+    (hm : ∀ id, ∀ v ∈ (D.cmdD id).vars.getD [], v.dataSize ≤ (mem.getD v.slot []).length)
+    (hbu : if D.unsBuf.isSome then D.unsCap ≤ ubuf.length else D.unsBase + D.unsCap ≤ buf.length)
+    (hq : (runOps ⟨D, init D buf ubuf mem⟩ ops).1.s.state ≠ .flushWrite)
+    (hqu : (runOps ⟨D, init D buf ubuf mem⟩ ops).1.s.ustate ≠ .flushWrite) :
+    ∃ us : List (List Byte), (∀ u ∈ us, UnitShape u) ∧ outAllM (runOps ⟨D, init D buf ubuf mem⟩ ops).2 = us.flatten :=
+  (C11_merged_units D buf ubuf mem ops hok hn hc hd hb hm hbu).idle hq hqu
+
+/-- while the command machine is sending: merged output ++ the rest of its unit = whole units -/
+theorem C11_merged_units_cmd (D : Desc) (buf ubuf : List Byte) (mem : List (List Byte)) (ops : List Op)
+    (hok : ∀ op ∈ ops, OpOk op) (hn : 0 < D.commandsNum) (hc : 0 < D.cap) (hd : DescOk D) (hb : D.cmdCap ≤ buf.length)
+    (hm : ∀ id, ∀ v ∈ (D.cmdD id).vars.getD [], v.dataSize ≤ (mem.getD v.slot []).length)
+    (hbu : if D.unsBuf.isSome then D.unsCap ≤ ubuf.length else D.unsBase + D.unsCap ≤ buf.length)
+    (hq : (runOps ⟨D, init D buf ubuf mem⟩ ops).1.s.state = .flushWrite) :
+    ∃ us : List (List Byte), (∀ u ∈ us, UnitShape u) ∧
+      outAllM (runOps ⟨D, init D buf ubuf mem⟩ ops).2 ++
+        remC (runOps ⟨D, init D buf ubuf mem⟩ ops).1.D (runOps ⟨D, init D buf ubuf mem⟩ ops).1.s = us.flatten :=
+  (C11_merged_units D buf ubuf mem ops hok hn hc hd hb hm hbu).cw hq
 
 /-- non-vacuity: shapes of real units -/
 example : UnitShape [13, 10, 79, 75, 13, 10] ∧ UnitShape [10, 43, 88, 61, 53, 10] ∧ UnitShape [10, 65, 84, 43, 88, 10] :=
